@@ -22,6 +22,10 @@ def gen(rng, tier):
         nrows = len(fr["columns"][0]["values"])
         # a numeric column with a large offset and a small spread (time stamps)
         fr["columns"].append(dm.col("t", "float", [f"{7 * 10 ** 6 + rng.randint(0, 280)}/7" for _ in range(nrows)]))
+        # an observation-level identifier: one row per level, rows NOT sorted by it
+        uid = [f"u{j:02d}" for j in range(nrows)]
+        rng.shuffle(uid)
+        fr["columns"].append(dm.col("uid", "str", uid))
         perm = list(range(nrows))
         rng.shuffle(perm)
         idx_kind = rng.choice(["dup", "float", "str", "rev", "perm", "perm"])
@@ -42,6 +46,9 @@ def gen(rng, tier):
         if kind != "with-missing" and rng.random() < 0.35:
             # as a term of its own: in a product the ten digits the offset costs would exceed the comparison tolerance
             fml += rng.choice([" + scale(t)", " + standardize(t)", " + center(t)"])
+        if rng.random() < 0.07 and "bs(" not in fml and "poly(" not in fml:
+            fml += rng.choice([" + (1 | uid)", " + (x | uid)", " + (0 + x | uid)"])
+            kind = kind + "/observation-level-group"
         if rng.random() < 0.05:
             # a formula that mentions NO column of the frame: every column is then an unused one
             fml = "1"
